@@ -167,7 +167,7 @@ def h_two_bags(ctx, opts1, opts2, order, strict=None):
             c = None
             for i in range(300):
                 c = SC(ORD, format(i, '016b'), [c] if c is not None else [])
-            bkids = [y, c]
+            bkids = [c]           # (Y keeps its index here: only the width of the indexes differs between the two bags)
         bb = SC(ORD, ctx.bitstr('q', 6), bkids)
         a = warm(SC(ORD, ctx.bitstr('a', 8), [x, p]))
         b = warm(SC(ORD, ctx.bitstr('b', 8), [x, bb]))
